@@ -55,7 +55,7 @@ const worldSeed = 7
 
 // knownInflightSig is the stable signature of the defect described in
 // notes/findings/C19-inflight-join-ignores-content.md.
-// knownOpenFHSig: notes/findings/C19-nfs40-replayed-open-current-fh.md
+// knownOpenFHSig: stable signature of the violation class of notes/findings/C19-nfs40-replayed-open-current-fh.md (fixed by 2dc060f)
 const knownOpenFHSig = "nfs40 replayed OPEN does not set the current filehandle"
 
 const knownInflightSig = "nfs41 SEQUENCE joins an in-flight request with the same ids without comparing the operations"
@@ -292,6 +292,9 @@ func TestHarness(t *testing.T) {
 		if r.joinClass {
 			f.Sig = knownInflightSig
 		}
+		if r.monitor != "" && r.sigClass != "" {
+			f.Sig = r.sigClass
+		}
 		res.Report(f)
 	}
 
@@ -305,9 +308,6 @@ func TestHarness(t *testing.T) {
 		account(&out)
 		if out.monitor != "" || out.mismatch != "" {
 			report(f.History, out)
-		} else if out.known != "" {
-			res.Report(hx.Finding{Kind: "violation", Property: "C19", History: f.History, What: out.known,
-				Name: "C19 monitor: same_reply, NFSv4.0 COMPOUND level", Sig: knownOpenFHSig})
 		}
 		res.ModelLines = drv.Lines
 		res.Write(o)
@@ -323,31 +323,7 @@ func TestHarness(t *testing.T) {
 	}
 
 	mismatches, violations := 0, 0
-	knownReported := false
-	reportKnown := func(ops []string, out outcome) {
-		res.Count("replayed-open-current-fh")
-		if knownReported || out.monitor != "" {
-			return
-		}
-		knownReported = true
-		min := hx.Shrink(ops, func(cand []string) bool {
-			if len(cand) == 0 || cand[0] != ops[0] {
-				return false
-			}
-			return runHistory(t, cand, drv, nil, 0).known != ""
-		})
-		r := runHistory(t, min, drv, nil, 0)
-		if r.known == "" {
-			min, r = ops, out
-		}
-		res.Report(hx.Finding{Kind: "violation", Property: "C19", History: min, What: r.known,
-			Name: "C19 monitor: a retransmitted request gets the reply it got the first time (same_reply, NFSv4.0 COMPOUND level)",
-			Sig:  knownOpenFHSig})
-	}
 	handle := func(ops []string, out outcome) {
-		if out.known != "" {
-			reportKnown(ops, out)
-		}
 		switch {
 		case out.monitor != "" && violations < 3:
 			violations++
